@@ -14,7 +14,7 @@ import json
 from harness import common, tlc, runner, peers
 from checks import rating
 
-INVS = ['PolicyNamesKnown', 'ProbeTableKnown', 'RsaFamilyProbed', 'DheatTablesKnown', 'HardeningPoliciesClean', 'PolicySizesSane', 'ShapeOk', 'BrokenPrimitivesFail',
+INVS = ['PolicyNamesKnown', 'ProbeTableKnown', 'RsaFamilyProbed', 'DheatTablesKnown', 'HardeningPoliciesClean', 'PolicySizesSane', 'PolicySizesNotFailing', 'ShapeOk', 'BrokenPrimitivesFail',
         'NamesCarryVersion']
 
 
@@ -59,18 +59,20 @@ def run(tier):
     for name, p in sorted(tb['policies'].items()):
         if not p['server']:
             continue
-        hk = {}
-        for t in p['host_keys']:
-            v = p['hostkey_sizes'].get(t)
-            meas = (v['hostkey_size'], v.get('ca_key_type', ''), v.get('ca_key_size', 0)) if v else rating.DEFAULT_HK.get(t)
-            if meas:
-                hk[t] = rating.hostkey_blob(t, meas)
-        cfg = peers.ServerCfg(banner=b'SSH-2.0-OpenSSH_9.9', kexinit={'kex': p['kex'], 'key': p['host_keys'], 'enc': p['ciphers'], 'mac': p['macs'], 'comp': ['none']},
-                              hostkeys=hk)
-        if p['dh_modulus_sizes']:
-            cfg['gex'] = {'per_alg': {a: {'style': 'roundup', 'moduli': [b]} for a, b in p['dh_modulus_sizes'].items()}}
-        scs.append({'argv': ['-n', '--skip-rate-test', rating.HOST], 'servers': {(rating.HOST, 22): cfg}})
-        names.append(name)
+        # once with the required host keys only, once with the policy's optional host keys offered as well (those the tool can probe)
+        for keys in (list(p['host_keys']), list(p['host_keys']) + [t for t in p.get('optional_host_keys', []) if t in rating.DEFAULT_HK and t not in p['host_keys']]):
+            hk = {}
+            for t in keys:
+                v = p['hostkey_sizes'].get(t)
+                meas = (v['hostkey_size'], v.get('ca_key_type', ''), v.get('ca_key_size', 0)) if v else rating.DEFAULT_HK.get(t)
+                if meas:
+                    hk[t] = rating.hostkey_blob(t, meas)
+            cfg = peers.ServerCfg(banner=b'SSH-2.0-OpenSSH_9.9', kexinit={'kex': p['kex'], 'key': keys, 'enc': p['ciphers'], 'mac': p['macs'], 'comp': ['none']},
+                                  hostkeys=hk)
+            if p['dh_modulus_sizes']:
+                cfg['gex'] = {'per_alg': {a: {'style': 'roundup', 'moduli': [b]} for a, b in p['dh_modulus_sizes'].items()}}
+            scs.append({'argv': ['-n', '--skip-rate-test', rating.HOST], 'servers': {(rating.HOST, 22): cfg}})
+            names.append(name)
     for name, sc, r in zip(names, scs, runner.run_many(scs)):
         ck.evaluated()
         if r.get('harness_error') or r.get('hang'):
